@@ -100,6 +100,22 @@ M = [
     ('C01', 'verify[collect,message', 'pgpy.pgp', '                if sig.signer in _ids:\n                    yield sig', '                if True:\n                    yield sig'),
     ('C01', 'verify[collect,uid', 'pgpy.pgp', '        if len(sspairs) == 0:\n            raise PGPError("No signatures to verify")', '        if False:\n            raise PGPError("No signatures to verify")'),
     ('C01', 'verify[collect,key', 'pgpy.pgp', '                        sspairs.append((sig, ua))', '                        sspairs.append((sig, subject))'),
+    ('C07', 'PGPKey.pubkey', 'pgpy.pgp', '            for uid in self._uids:\n                pub |= copy.copy(uid)', '            for uid in self.userids:\n                pub |= copy.copy(uid)'),
+    ('C07', 'PGPKey.pubkey', 'pgpy.pgp', '                pub |= subkey.pubkey', '                pub |= subkey'),
+    ('C15', 'get_uid', 'pgpy.pgp', 'return next((u for u in self._uids if search in filter(lambda a: a is not None, (u.name, u.comment, u.email))), None)', 'return next((u for u in self._uids if any(search in a for a in (u.name, u.comment, u.email) if a)), None)'),
+    ('C19', '_get_key[', 'pgpy.pgp', "            if alias.replace(' ', '') in m:\n                return self._keys[m[alias.replace(' ', '')]]", "            if alias.replace(' ', '') in m:\n                return self._keys[m[alias]]"),
+    ('C19', '_get_keys', 'pgpy.pgp', 'return [self._keys[m[alias]] for m in self._aliases if alias in m]', 'return [self._keys[m[alias]] for m in list(self._aliases)[:1] if alias in m]'),
+    ('C19', 'PGPKeyring.key[sig', 'pgpy.pgp', '        if isinstance(identifier, PGPSignature):\n            identifier = identifier.signer\n\n        yield self._get_key(identifier)', '        if isinstance(identifier, PGPSignature):\n            identifier = identifier.signer_fingerprint\n\n        yield self._get_key(identifier)'),
+    ('C05', 'NotationData', 'pgpy.packet.subpackets.signature', "            self.value = val.decode('latin-1')", "            self.value = val.decode('utf-8')"),
+    ('C05', 'ReasonFor', 'pgpy.packet.subpackets.signature', '        self.string = packet[:(self.header.length - 2)]\n        del packet[:(self.header.length - 2)]', '        self.string = packet[:(self.header.length - 1)]\n        del packet[:(self.header.length - 1)]'),
+    ('C02', 'subpackets.PreferredHash', 'pgpy.packet.subpackets.signature', '        for i in range(0, self.header.length - 1):\n            self.flags = packet[:1]\n            del packet[:1]\n\n\nclass ByteFlag', '        for i in range(0, self.header.length):\n            self.flags = packet[:1]\n            del packet[:1]\n\n\nclass ByteFlag'),
+    ('C02', 'subpackets.KeyFlags[1', 'pgpy.packet.subpackets.signature', '_bytes += self.int_to_bytes(sum(self.flags))', '_bytes += self.int_to_bytes(sum(self.flags) & 0x7f)'),
+    ('C02', 'subpackets.KeyFlags[2', 'pgpy.packet.subpackets.signature', '        self._flags |= (self.__flags__ & val)', '        self._flags = (self.__flags__ & val)'),
+    ('C10', 'ascii_unarmor', 'pgpy.types', "            if Armorable.crc24(m['body']) != m['crc']:\n                warnings.warn('Incorrect crc24', stacklevel=3)", "            if m['crc'] and Armorable.crc24(m['body']) != m['crc']:\n                warnings.warn('Incorrect crc24', stacklevel=3)"),
+    ('C08', 'LiteralData.__bytearray__', 'pgpy.packet.packets', "_bytes += self.format.encode('latin-1')", '_bytes += self.format.encode()'),
+    ('C08', 'ECPoint', 'pgpy.packet.fields', '        ct.bytelen = (bitlen + 7) // 8', '        ct.bytelen = bitlen // 8'),
+    ('C12', 'second call', 'pgpy.packet.fields', '        if self.specifier >= String2KeyType.Salted:\n            hsalt = bytes(self.salt)', "        if self.specifier >= String2KeyType.Salted:\n            hsalt = bytes(getattr(self, '_salt0', self.salt))\n            self._salt0 = self.salt"),
+    ('C04', 'ECDHCipherText.decrypt', 'pgpy.packet.fields', '        padder = PKCS7(64).unpadder()', '        padder = PKCS7(128).unpadder()'),
 ]
 
 
